@@ -13,12 +13,14 @@ import IrVerif.Drive.AtomicSave
 import IrVerif.Drive.Path
 import IrVerif.Drive.Layout
 import IrVerif.Drive.Journal
+import IrVerif.Drive.Serde
 /-! Line protocol: one JSON request per line on stdin (`{"m": "<model>.<fn>", ...}`), one JSON
 answer per line on stdout (`{"err": ...}` for malformed requests).  Imports models only — never a
 proof file — so that nothing it links touches Mathlib. -/
 open Lean IrVerif.Drive
 
 def handlers : List Handler := [
+  IrVerif.Drive.Serde.handle,
   IrVerif.Drive.Clone.handle,
   IrVerif.Drive.Kernel.handle,
   IrVerif.Drive.Names.handle,
